@@ -662,6 +662,9 @@ void run_ops(const Case& cs, Trace* tr) {
       if (vf::ref_seed_hash(other) == vf::ref_seed_hash(seed)) continue;
       auto ws = T::make_upd(5, 3, 1.0f, other, nv);
       auto good = T::make_upd(5, 3, 1.0f, seed, nv);
+      // the foreign sketch is in estimation mode half of the time (400 keys at lg_k 5): neither its theta nor its emptiness may leak anywhere
+      const int nforeign = ((op.uarg(1) & 8) != 0 || (op.uarg(0) & 4) != 0) ? 400 : 10;
+      for (int k = 10; k < nforeign; ++k) T::with_value(static_cast<uint64_t>(k), nv, 0, [&](auto&& v) { ws.update(static_cast<int64_t>(k), std::forward<decltype(v)>(v)); });
       for (int k = 0; k < 10; ++k) {
         T::with_value(static_cast<uint64_t>(k), nv, 0, [&](auto&& v) { ws.update(static_cast<int64_t>(k), std::forward<decltype(v)>(v)); });
         T::with_value(static_cast<uint64_t>(k), nv, 0, [&](auto&& v) { good.update(static_cast<int64_t>(k), std::forward<decltype(v)>(v)); });
@@ -670,7 +673,8 @@ void run_ops(const Case& cs, Trace* tr) {
       int which = static_cast<int>(op.uarg(0) % 4);
       bool threw = false;
       try {
-        if (which == 0) { auto u2 = T::make_union(u_lgk, u_rf, u_p, seed, nv); u2.update(wc); }
+        // which 0: the LIVE union of the case refuses it - a refused update is a no-op, every later result of that union is still the model's
+        if (which == 0) { U.update(wc); }
         else if (which == 1) { auto i2 = T::make_inter(seed, nv); i2.update(wc); }
         else if (which == 2) T::anotb(seed, nv, wc, good, true);
         else T::anotb(seed, nv, good, wc, true);
@@ -827,7 +831,7 @@ rc::Gen<Case> gen_ops() {
       {1, op2("u_upd_ires", range(0, 1), range(0, 1))},
       {1, op2("i_upd_ures", range(0, 1), range(0, 1))},
       {1, op4("anotb_res", range(0, 5), range(0, 1), range(0, 1), range(0, 1))},
-      {1, op2("wrongseed", range(0, 3), range(0, 4))},
+      {1, op2("wrongseed", range(0, 7), range(0, 15))},
   });
   auto ops = rc::gen::map(rc::gen::tuple(rc::gen::mapcat(range(2, 5), [inp](int64_t n) { return rc::gen::container<std::vector<Op>>(static_cast<size_t>(n), inp); }), oplist(hist, 3, 0.2)),
                           [](std::tuple<std::vector<Op>, std::vector<Op>> t) { auto v = std::get<0>(t); auto& h = std::get<1>(t); v.insert(v.end(), h.begin(), h.end()); return v; });
